@@ -165,10 +165,17 @@ Definition api_remove_link (name : N) : M unit :=
   n <- uniq all EQuery EQuery ;;
   remove_link_graph n.
 
+(* Topology.remove_network_service (fix 18b6247): the service's own ports (and the sub-interfaces of dedicated
+   ports) are first disconnected from the services they are connected to / peered with *)
+Definition remove_ns_disconnecting (s : N) : M unit :=
+  ifs <- m_get (fun g => disc_list g (first_neighbor g s RConnects CCP)) ;;
+  for_each_set disconnect_peers_of ifs ;;;
+  remove_ns s.
+
 Definition api_remove_ns_topo (name : N) : M unit :=
   all <- m_get (fun g => by_name g CNS name) ;;
   n <- uniq all EQuery EQuery ;;
-  remove_ns n.
+  remove_ns_disconnecting n.
 
 (* Node.remove_component(name) on the node handle n *)
 Definition api_remove_component (n : N) (cname : N) : M unit :=
@@ -185,7 +192,7 @@ Definition api_node_remove_ns (n : N) (sname : N) : M unit :=
   guard (cls_eqb (ncls x) CNode || cls_eqb (ncls x) CComp) EQuery ;;;
   ss <- m_get (fun g => child_by_name g (first_neighbor g n RHas CNS) sname) ;;
   s <- uniq ss EQuery EAmbig ;;
-  remove_ns s.
+  remove_ns_disconnecting s.
 
 (* NetworkService.disconnect_interface(i) through a handle with cache c *)
 Definition api_disconnect (i : N) (c : list N) : M (list N) :=
@@ -246,13 +253,23 @@ Definition api_unpeer_with (xy : N * N) (ca cb : list N) : M (list N * list N) :
   remove_cp_and_links (snd xy) true ;;;
   ret (removeN (fst xy) ca, removeN (snd xy) cb).
 
+(* fix 0d94156: both ends of the path networkx picked must be ServicePorts, else "do not peer" *)
+Definition both_sp (g : graph) (xy : N * N) : bool :=
+  N.eqb (type_of g (fst xy)) T_ServicePort && N.eqb (type_of g (snd xy)) T_ServicePort.
+Definition api_unpeer_checked (xy : N * N) (ca cb : list N) : M (list N * list N) :=
+  ok <- m_get (fun g => both_sp g xy) ;;
+  guard ok ETopology ;;;
+  api_unpeer_with xy ca cb.
+
 Definition api_unpeer (a b : N) (ca cb : list N) : M (list N * list N) :=
   _ <- need_node a ;; _ <- need_node b ;;
   e <- m_get (fun g => unpeer_ends g a b) ;;
   match e with
   | None | Some [] => fail ETopology               (* "do not peer" *)
-  | Some [xy] => api_unpeer_with xy ca cb
-  | Some _ => fail EAmbig                          (* peered more than once: networkx picks one path *)
+  | Some [xy] => api_unpeer_checked xy ca cb
+  | Some l =>                                      (* several 5-node paths: networkx picks one *)
+      some <- m_get (fun g => existsb (both_sp g) l) ;;
+      if some then fail EAmbig else fail ETopology
   end.
 
 (* ---- prune(reservation_state): nmark says "this element's reservation state matches" ---- *)
@@ -357,7 +374,7 @@ Definition check8 (o : obs) : bool :=
       match unpeer_ends (o_pre o) a b with
       | Some ((_ :: _ :: _) as cands) =>
           (* several shortest paths: the implementation must agree with one of the choices *)
-          existsb (fun xy => agrees o (run (cc <- api_unpeer_with xy c1 c2 ;; ret [fst cc; snd cc]) (o_pre o))) cands
+          existsb (fun xy => agrees o (run (cc <- api_unpeer_checked xy c1 c2 ;; ret [fst cc; snd cc]) (o_pre o))) cands
       | _ => agrees o (run (exec (o_experiment o) (o_op o) (o_caches o)) (o_pre o))
       end
   | _ => agrees o (run (exec (o_experiment o) (o_op o) (o_caches o)) (o_pre o))
